@@ -196,12 +196,51 @@ fn strategy(len: usize, no_cse: bool) -> BoxedStrategy<Case> {
 }
 
 pub fn check(case: &Case) -> Outcome {
+    check_with(case, false)
+}
+
+/// `avoid_undo_delete`: end the history before an undo of a row/column deletion whose band some
+/// formula read (listed under C01 / C31: the undo leaves `#REF!` behind, and with it spill cells
+/// of an anchor that no longer spills).
+pub fn check_with(case: &Case, avoid_undo_delete: bool) -> Outcome {
     let mut o = Outcome::pass();
     let mut um = ops::new_user_model(&case.locale, &case.language);
     let mut structural = false;
     let mut spill = false;
+    // per history entry: was it a deletion of a band some formula read?
+    let mut undo_stack: Vec<bool> = vec![];
+    let mut redo_stack: Vec<bool> = vec![];
     for (i, op) in case.ops.iter().enumerate() {
+        let band_referenced = match op {
+            Op::DeleteRows { s, row, n } => crate::engine::nodes::any_formula_reads_rows(um.get_model(), ops::res_sheet(&um, *s), *row, *n),
+            Op::DeleteCols { s, col, n } => crate::engine::nodes::any_formula_reads_columns(um.get_model(), ops::res_sheet(&um, *s), *col, *n),
+            _ => false,
+        };
+        if avoid_undo_delete && matches!(op, Op::Undo) && undo_stack.last().copied().unwrap_or(false) {
+            o.excluded += 1;
+            o = o.label("ended:undo-of-deletion-of-referenced-band");
+            break;
+        }
+        let hist_before = um.verif_history_len();
         let res = ops::apply(&mut um, op);
+        let hist_after = um.verif_history_len();
+        match op {
+            Op::Undo if hist_after.0 + 1 == hist_before.0 => {
+                if let Some(x) = undo_stack.pop() {
+                    redo_stack.push(x);
+                }
+            }
+            Op::Redo if hist_after.0 == hist_before.0 + 1 => {
+                if let Some(x) = redo_stack.pop() {
+                    undo_stack.push(x);
+                }
+            }
+            _ if hist_after.0 == hist_before.0 + 1 => {
+                undo_stack.push(band_referenced);
+                redo_stack.clear();
+            }
+            _ => {}
+        }
         if let Applied::Panic(p) = &res {
             // the model may be in any state after a panic: the case ends (labelled)
             return o.label(format!("op-panicked:{}:{}", op.kind(), p.class()));
@@ -258,7 +297,8 @@ pub fn run(ctx: &Ctx) {
         Tier::Thorough => (3000000, 40),
     };
     let no_cse = ctx.avoid("c27-cse-arrays");
-    ctx.campaign("histories", cases, || strategy(len, no_cse), check, |c| serde_json::to_value(c).unwrap_or(Value::Null));
+    let undo_delete = ctx.avoid("c31-undo-of-deletion-of-referenced-band");
+    ctx.campaign("histories", cases, || strategy(len, no_cse), move |c: &Case| check_with(c, undo_delete), |c| serde_json::to_value(c).unwrap_or(Value::Null));
 }
 
 pub fn replay(_ctx: &Ctx, _campaign: &str, case: &Value) -> Result<Outcome, String> {
